@@ -170,6 +170,15 @@ class TelnetTransport(Transport):
     def open(self) -> None:
         self._pre_open_closing_log(closing=False)
 
+        # a (re-)opened connection is a new session; do not carry eof/buffer/option negotiation
+        # state of a previous session over -- otherwise reads after re-opening a connection that
+        # hit EOF return nothing forever, and the new session's options are not negotiated
+        self._eof = False
+        self._raw_buf = b""
+        self._cooked_buf = b""
+        self._control_buf = b""
+        self._control_char_sent_counter = 0
+
         if not self.socket:
             self.socket = Socket(
                 host=self._base_transport_args.host,
